@@ -316,6 +316,12 @@ theorem aromfix_charge_conserving : ∀ r ∈ rules, chargeDelta r = some 0 := b
 /-- every rule patches only atoms and bonds of its own pattern (`mapping[n]`, `bonds[n][m]` cannot raise) -/
 theorem rule_patches_within_pattern : ∀ r ∈ rules, patchWithinPattern r = true := by decide +kernel
 
+/-- both "freak" patterns have the documented shape; in particular the bond next to the lone-pair side accepts a double
+    **and** an aromatic bond, so the pattern matches whether the neighbouring ring is still localised or already aromatic
+    (dropping `,:` from `=,:` makes this fail) -/
+theorem freak_patterns_accept_double_and_aromatic : freaks.length = 2 ∧ ∀ r ∈ freaks, freakShapeOk r = true := by
+  decide +kernel
+
 /-- lifted over the loop: **any** run of `__fix_rings` — any molecule with unique atom numbers, any lists of matches,
     provided every accepted match maps the patched pattern atoms injectively to atoms carrying the pattern charges
     (`fixFaithful`, which the driver evaluates on the mappings the real matcher produced) — conserves the net charge -/
